@@ -24,7 +24,7 @@ FORBIDDEN = re.compile(
     r"\b(Admitted|admit|Axiom|Axioms|Parameter|Parameters|Conjecture|Conjectures|Hypothesis|Hypotheses|Variable|Variables"
     r"|Admit Obligations|bypass_check|type-in-type|impredicative-set)\b|Unset\s+(Guard|Positivity|Universe)")
 COMMON_TRUSTED = [
-    "Coq 8.16.1 kernel incl. vm_compute conversion (no native_compute); coqchk not run in the quick tier",
+    "Coq 8.16.1 kernel incl. vm_compute conversion (no native_compute); coqchk -o re-checks the Props closure in the thorough tier (axioms, type-in-type, unsafe fixpoints, assumed positivity must all be <none> or allow-listed)",
     "axioms: none declared by this development; Print Assumptions of every property theorem is parsed on every run and compared with the allow-list in the spec",
     "hand-written Gallina model of the anchored Rust code (which functions: see `modelled`); tied to /repo's working tree on every run by the correspondence check: the Rust harness runs the real code and coqc evaluates the model's executable definitions on the same cases (vm_compute)",
     "the harness generators and canonicalisers bound what the correspondence can notice; rustc/LLVM and the Rust std containers are trusted",
@@ -178,6 +178,37 @@ def check_props_file(props):
                 missing_print=missing_print, log=out[-4000:], nonexact=sloppy)
 
 
+def coqchk_props(spec):
+    """Independent re-check (coqchk) of the compiled Props modules and everything they depend on; returns
+    (ok, axioms, flags, log).  `flags` lists any non-<none> entry of the type-in-type / unsafe fixpoint /
+    assumed-positivity lines of the context summary."""
+    files = spec.get("props", [spec["coq_dir"] + "/Props.v"])
+    mods = ["FV." + f[:-2].replace("/", ".") for f in files]
+    rc, out, _ = sh(["coqchk", "-o", "-silent", "-Q", COQ, "FV"] + mods, timeout=3000, cwd=COQ)
+    axioms, flags = [], []
+    lines = out.split("\n")
+    i = 0
+    while i < len(lines):
+        l = lines[i]
+        m = re.match(r"^\* (Axioms|Constants/Inductives relying on type-in-type|Constants/Inductives relying on unsafe \(co\)fixpoints|Inductives whose positivity is assumed):\s*(.*)$", l)
+        if m:
+            items = []
+            if m.group(2).strip() and m.group(2).strip() != "<none>":
+                items.append(m.group(2).strip())
+            j = i + 1
+            while j < len(lines) and lines[j].startswith("    "):
+                items.append(lines[j].strip())
+                j += 1
+            if m.group(1) == "Axioms":
+                axioms = items
+            elif items:
+                flags.append(m.group(1) + ": " + ", ".join(items))
+            i = j
+            continue
+        i += 1
+    return (rc == 0 and "CONTEXT SUMMARY" in out), axioms, flags, out[-3000:]
+
+
 def cargo_build(bins, release=False, crate_dir="harness"):
     cmd = "cargo build --offline " + ("--release " if release else "") + " ".join("--bin " + b for b in bins)
     return sh(cmd, cwd=os.path.join(HARNESS_ROOT, crate_dir), timeout=3000,
@@ -250,7 +281,7 @@ def mutate(patch, pids, tier="quick"):
     import shutil
     import uuid
     tag = "_mut_" + uuid.uuid4().hex[:8]
-    scratch = os.path.join(CACHE, "mut", tag)
+    scratch = os.path.join(os.environ.get("FV_MUT_ROOT", "/tmp/fv_mut"), tag)   # scratch worktrees live outside /repo and /verif
     os.makedirs(scratch, exist_ok=True)
     repo2 = os.path.join(scratch, "repo")
     rcs = {}
@@ -353,6 +384,18 @@ def check_locked(pid, tier="quick", seed=None, extra_env=None):
     aud = audit_coq([d] + spec.get("coq_extra_dirs", []))
     if aud:
         broken.append({"kind": "broken-theorem", "what": "audit: forbidden constructs", "log": "\n".join(aud[:20])})
+    chk = None
+    if tier == "thorough" and rc == 0 and pr["ok"]:
+        okc, ax_c, flags_c, log_c = coqchk_props(spec)
+        # coqchk names library axioms by their full path (Coq.Logic.Classical_Prop.classic); compare by suffix
+        extra_c = [a for a in ax_c if not any(a == x or a.endswith("." + x) for x in allowed)]
+        chk = {"ok": okc, "axioms": ax_c, "flags": flags_c}
+        if not okc:
+            broken.append({"kind": "broken-theorem", "what": "coqchk failed on the Props closure of %s" % d, "log": log_c})
+        if extra_c:
+            broken.append({"kind": "broken-theorem", "what": "coqchk reports unexpected axioms: %s" % extra_c})
+        if flags_c:
+            broken.append({"kind": "broken-theorem", "what": "coqchk reports disabled kernel checks: %s" % flags_c})
     obligations = len(pr["theorems"]) if pr["theorems"] else sum(len(re.findall(r"^\s*Theorem\s", open(os.path.join(COQ, f)).read(), re.M)) for f in spec.get("props", [d + "/Props.v"]))
     discharged = len(pr["theorems"]) if (rc == 0 and pr["ok"] and not extra_ax) else 0
 
@@ -442,6 +485,7 @@ def check_locked(pid, tier="quick", seed=None, extra_env=None):
         "trusted_base": COMMON_TRUSTED + spec.get("trusted_base", []) + ["library axioms allowed for this property: %s" % (sorted(allowed) or "none (all theorems Closed under the global context)")],
         "theorems": pr["theorems"],
         "print_assumptions": {"closed": pr["closed"], "axioms": pr["axioms"]},
+        "coqchk": chk if chk is not None else "not run in this tier (thorough only)",
         "evaluations": int(stats.get("evaluations", 0)),
         "distinct_nontrivial": int(stats.get("distinct_nontrivial", 0)),
         "rule": stats.get("rule", ""),
